@@ -10,7 +10,8 @@
 (* Abstract function:                                                      *)
 (*  [deps: [kind, pass], params: Seq(ty), bound ("inline"/"where": how the *)
 (*   type parameter of a "generic" parameter declares its bound), lwhere   *)
-(*   (a second lifetime 'b with `where 'b: 'a`), async, qual, ret, gname   *)
+(*   (a second lifetime 'b that outlives 'a, declared "where" (`where      *)
+(*   'b: 'a`) or "inline" (`<'a, 'b: 'a>`); "none"), async, qual, ret, gname *)
 (*   (the name prefix of its type parameters)]                             *)
 (***************************************************************************)
 EXTENDS TLC, Sequences, Naturals, FiniteSets, SequencesExt
@@ -25,14 +26,14 @@ UsesLife(f) == f.deps.pass = "reflife" \/ (\E i \in DOMAIN f.params : f.params[i
 \* the generic parameter list of the function, in declaration order: [kind, name]
 Generics(f) ==
   (IF UsesLife(f) THEN << [kind |-> "life", name |-> "'a"] >> ELSE << >>)
-  \o (IF f.lwhere THEN << [kind |-> "life", name |-> "'b"] >> ELSE << >>)
+  \o (IF f.lwhere # "none" THEN << [kind |-> "life", name |-> "'b"] >> ELSE << >>)
   \o (IF f.deps.kind = "generic" THEN << [kind |-> "type", name |-> "D"] >> ELSE << >>)
   \o SelectSeq([i \in DOMAIN f.params |-> IF f.params[i] = "generic" THEN [kind |-> "type", name |-> f.gname \o ToString(i)] ELSE [kind |-> "none", name |-> ""]],
                LAMBDA g : g.kind # "none")
   \o (IF \E i \in DOMAIN f.params : f.params[i] = "array" THEN << [kind |-> "const", name |-> "N"] >> ELSE << >>)
 \* where-predicates: [kind \in {"type", "life"}, on]
 WherePreds(f) ==
-  (IF f.lwhere THEN << [kind |-> "life", on |-> "'b"] >> ELSE << >>)
+  (IF f.lwhere = "where" THEN << [kind |-> "life", on |-> "'b"] >> ELSE << >>)
   \o (IF f.bound = "where" THEN SelectSeq([i \in DOMAIN f.params |-> IF f.params[i] = "generic" THEN [kind |-> "type", on |-> f.gname \o ToString(i)] ELSE [kind |-> "none", on |-> ""]],
                                           LAMBDA g : g.kind # "none") ELSE << >>)
 
